@@ -155,6 +155,9 @@ def worker(shard: dict) -> dict:  # noqa: PLR0912
                 judge(m, "mutant", acc, vk)
             if i == 0:
                 acc.sample({"generated": t[:300]})
+    elif kind == "escapes":
+        for _ in range(shard["count"]):
+            judge(gtexts.escape_text(rnd), "escape_form", acc, vk)
     elif kind == "soups":
         for _ in range(shard["count"]):
             judge(gtexts.token_soup(rnd) if rnd.random() < 0.5 else gtexts.char_soup(rnd), "soup", acc, vk)
@@ -193,6 +196,8 @@ def main(tier: str, seed: int) -> int:
         shards.append({"kind": "generated", "seed": seed_int("C11", seed, "g", j), "count": run.pick(60, 1200), "prefixes": j < run.pick(2, 16), "mutants": run.pick(4, 8)})
         shards.append({"kind": "soups", "seed": seed_int("C11", seed, "s", j), "count": run.pick(500, 8000)})
     shards.append({"kind": "edges", "seed": 0})
+    for j in range(8):
+        shards.append({"kind": "escapes", "seed": seed_int("C11", seed, "esc", j), "count": run.pick(400, 6000)})
     alpha = list('ab_ ={}()[]|~*+?!&^"\'\\.,#/@$-019\nPE') if not run.quick else list('a ={(|~*!&^"\'\\.#/-1\nP')
     for t in SMALL[: run.pick(2, 3)]:
         shards.append({"kind": "pointwise", "text": t, "alphabet": alpha, "seed": 0})
